@@ -507,14 +507,23 @@ def _coerce(x):
     return None
 
 
+RAW = [False]   # when on, every ring operation also records an un-normalised expression tree
+
+
+def _rawof(x):
+    r = x.raw
+    return r if r is not None else ("leaf", x)
+
+
 class Sx:
     """Symbolic complex scalar."""
 
-    __slots__ = ("re", "im")
+    __slots__ = ("re", "im", "raw")
 
     def __init__(self, re: dict, im: dict | None = None):
         self.re = re
         self.im = im if im is not None else {}
+        self.raw = None
 
     # -- predicates -------------------------------------------------------
     def is_real(self) -> bool:
@@ -545,12 +554,18 @@ class Sx:
             o = _coerce(o)
             if o is None:
                 return NotImplemented
-        return Sx(padd(self.re, o.re), padd(self.im, o.im) if (self.im or o.im) else {})
+        r = Sx(padd(self.re, o.re), padd(self.im, o.im) if (self.im or o.im) else {})
+        if RAW[0]:
+            r.raw = ("+", _rawof(self), _rawof(o))
+        return r
 
     __radd__ = __add__
 
     def __neg__(self):
-        return Sx(pneg(self.re), pneg(self.im))
+        r = Sx(pneg(self.re), pneg(self.im))
+        if RAW[0]:
+            r.raw = ("neg", _rawof(self))
+        return r
 
     def __pos__(self):
         return self
@@ -560,7 +575,10 @@ class Sx:
             o = _coerce(o)
             if o is None:
                 return NotImplemented
-        return Sx(padd(self.re, pneg(o.re)), padd(self.im, pneg(o.im)) if (self.im or o.im) else {})
+        r = Sx(padd(self.re, pneg(o.re)), padd(self.im, pneg(o.im)) if (self.im or o.im) else {})
+        if RAW[0]:
+            r.raw = ("+", _rawof(self), ("neg", _rawof(o)))
+        return r
 
     def __rsub__(self, o):
         o = _coerce(o)
@@ -580,40 +598,58 @@ class Sx:
                 return NotImplemented
         a, b, c, d = self.re, self.im, o.re, o.im
         if not b and not d:
-            return Sx(pmul(a, c))
-        re = pmul(a, c)
-        if b and d:
-            re = padd(re, pneg(pmul(b, d)))
-        im = {}
-        if d:
-            im = pmul(a, d)
-        if b:
-            im = padd(im, pmul(b, c))
-        return Sx(re, im)
+            r = Sx(pmul(a, c))
+        else:
+            re = pmul(a, c)
+            if b and d:
+                re = padd(re, pneg(pmul(b, d)))
+            im = {}
+            if d:
+                im = pmul(a, d)
+            if b:
+                im = padd(im, pmul(b, c))
+            r = Sx(re, im)
+        if RAW[0]:
+            r.raw = ("*", _rawof(self), _rawof(o))
+        return r
 
     __rmul__ = __mul__
 
     def conjugate(self):
         if not self.im:
             return self
-        return Sx(self.re, pneg(self.im))
+        r = Sx(self.re, pneg(self.im))
+        if RAW[0]:
+            r.raw = ("conj", _rawof(self))
+        return r
 
     conj = conjugate
 
     @property
     def real(self):
-        return Sx(self.re) if self.im else self
+        if not self.im:
+            return self
+        r = Sx(self.re)
+        if RAW[0]:
+            r.raw = ("re", _rawof(self))
+        return r
 
     @property
     def imag(self):
-        return Sx(self.im)
+        r = Sx(self.im)
+        if RAW[0]:
+            r.raw = ("im", _rawof(self))
+        return r
 
     def abs2(self):
         """|z|^2 as a real scalar."""
         r = pmul(self.re, self.re)
         if self.im:
             r = padd(r, pmul(self.im, self.im))
-        return Sx(r)
+        out = Sx(r)
+        if RAW[0]:
+            out.raw = ("abs2", _rawof(self))
+        return out
 
     def __truediv__(self, o):
         if type(o) is not Sx:
@@ -632,7 +668,10 @@ class Sx:
         if self.im:
             d = self.abs2()
             return self.conjugate() * d.reciprocal()
-        return Sx(pinv(self.re))
+        r = Sx(pinv(self.re))
+        if RAW[0]:
+            r.raw = ("rinv", _rawof(self))
+        return r
 
     def __pow__(self, e):
         return spow(self, e)
